@@ -199,7 +199,18 @@ func (rc *rangeChecker) check(what string, path string, rng hcl.Range) {
 	}
 	if fi.badKeys[key] || (len(fi.tainted) > 0 && (fi.inTaint(rng.Start.Byte) || fi.inTaint(rng.End.Byte))) {
 		rc.upstream++
-		rc.r.Class("upstream-range-at:" + sigOf(what))
+		if fi.badKeys[key] {
+			rc.r.Class("upstream-range-identical-at:" + sigOf(what))
+			// A hover answers with the extent of the element it describes. An extent the parser
+			// itself left inconsistent (end before start: an unclosed call at the end of a body)
+			// may be echoed by the outline, which mirrors the AST; a hover that hands it back
+			// tells the client to highlight a place that does not exist.
+			if sg := sigOf(what); sg == "hover.Range" && (rng.End.Byte < rng.Start.Byte || rng.End.Byte > len(fi.src)) {
+				rc.r.Fail("range:bytes:"+sg, "%s %s: byte offsets %d-%d out of order or outside file %q (len %d) (the parser's own inconsistent extent, handed back)", rc.cur, what, rng.Start.Byte, rng.End.Byte, rng.Filename, len(fi.src))
+			}
+		} else {
+			rc.r.Class("upstream-range-at:" + sigOf(what))
+		}
 		return
 	}
 	n := len(fi.src)
